@@ -324,7 +324,7 @@ def random_cmd(rng, st, dims, faults, ops, guards=False):
     if r < 0.35: return "NewMove %d %d" % (v(), v())
     if r < 0.40: return "Destroy %d" % v()
     if r < 0.41: return "ClearCache"
-    if r < 0.42: return "Burst %d %d" % (rng.choice(dims), rng.choice([3, 33, 40, 70]))
+    if r < 0.42: return "Burst %d %d" % (rng.choice(dims), rng.choice([3, 33, 40]))
     if r < 0.50: return "Write %d %d" % (v(), rng.choice([1, 2, 3, 4, 5]))
     if r < 0.53: return "SetBackingStore %d %d" % (v(), rng.randrange(1, NE + 1))
     if r < 0.60: return "CopyAssign %d %d %d" % (v(), v(), fail)
@@ -388,7 +388,8 @@ def random_segments(exe, seed, nseg, length, dims=(2, 3, 4, 5, 6), faults=False,
 # trace validation
 # ----------------------------------------------------------------------------------------------
 def trace_cfg(name, faults=True, nblk=40, cap=32):
-    nblk = max(nblk, 96)      # a Burst keeps up to 70 temporaries alive
+    if nblk > 12:
+        nblk = 256            # random histories: up to 32 cached blocks per class plus a Burst of 70 temporaries
     p = os.path.join(vlib.BUILD, name + ".cfg")
     with open(p, "w") as f:
         f.write("""SPECIFICATION TSpec
